@@ -340,5 +340,8 @@ def run(repo, check):
     check.add(r6)
     check.run_rule(rule_r7, repo)
     check.run_rule(rule_r8, repo)
+    from sa.rules import c17
+    from sa.rules.common import share
+    share(check, repo, c17.rule_r3, 'C12.R9', 'disabling the signature check for one decode does not disable it for later ones: shared layouts are not written (shared with C17.R3)')
     check.assumptions = ['implicit exceptions are decided only where a fold executes the code (R5, R7, R8: template walk, template construction, scanner); elsewhere only explicit raise/assert sites are decided',
                          'bitstring raises a subclass of bitstring.Error on a short read of a sized format (uint:n, bytes:n, bin:n) and ValueError on a short read of the unsized bool format (bitstring 4.x, confirmed by reading its source and by experiment)']
